@@ -65,3 +65,13 @@ def install(w):
                ensures=["result == (NonNull(arg.type) and arg.default is None"
                         " and is_undefined(arg.default_value))"],
                props={"C20", "C15", "C13"})
+
+    # get_named_type: strips every wrapper; None stays None
+    w.contract(f"{D}.get_named_type", params={"type_": "opt:ty"}, returns="opt:ty",
+               ensures=["(result is None) == (type_ is None)",
+                        "implies(type_ is not None, NamedTy(result))"],
+               raises=[], modifies=[],
+               loops={1: {"invariant": ["ty_rank(unwrapped_type) >= 0"],
+                          "variant": "ty_rank(unwrapped_type)"}},
+               locals={"unwrapped_type": "ty"},
+               props={"C14", "C20"})
